@@ -74,14 +74,21 @@ def trigger_fn(world, trig):
     def fn():
         if trig == "inst":
             return ("inst", inst_name, model.abstract(cls()))
+        # whoever is handed the metadata must find the finished class behind it: the generated methods are observed at that moment
+        def ready(c):
+            return [n for n in ("__spec_class_init__", "__spec_class_repr__", "__spec_class_eq__", "update", "transform", "reset") if n not in vars(c)]
+
         if trig == "meta":
-            return ("meta", main.__name__, sorted(main.__spec_class__.attrs))
+            names = sorted(main.__spec_class__.attrs)
+            return ("meta", main.__name__, names, ready(main))
         if trig == "fields":
-            return ("fields", main.__name__, sorted(f.name for f in dataclasses.fields(main)))
+            names = sorted(f.name for f in dataclasses.fields(main))
+            return ("fields", main.__name__, names, ready(main))
         if trig == "sub_inst":
             return ("inst", inst_name, model.abstract(cls()))
         if trig == "sub_meta":
-            return ("meta", inst_name, sorted(cls.__spec_class__.attrs))
+            names = sorted(cls.__spec_class__.attrs)
+            return ("meta", inst_name, names, ready(main))
         if trig == "parent_inst":
             return ("inst", parent.__name__, model.abstract(parent()))
         raise AssertionError(trig)
